@@ -7,28 +7,48 @@ use crate::zx::{
 };
 use crate::zx::sound::ay::ZXAYMode;
 
-/// sample index of a frame position: <= samples_per_frame, monotone, floor(spf * f) below 1.0
+/// sample index of a frame position, every sample rate 8-384 kHz: never beyond samples_per_frame,
+/// frame start -> 0, frame end -> floor(rate/50)
 #[kani::proof]
 #[kani::stub(libm::sqrt, sqrt_stub)]
-fn sample_count() {
+fn sample_index_range() {
     let rate: usize = kani::any();
     kani::assume(rate >= 8000 && rate <= 384000);
-    let m = ZXMixer::new(true, false, ZXAYMode::Mono, 44100);
-    let mut m = m;
+    let mut m = ZXMixer::new(true, false, ZXAYMode::Mono, 44100);
     m.verif_set_rate(rate);
     let spf = rate / 50;
     let f: f64 = kani::any();
-    let g: f64 = kani::any();
-    kani::assume(f >= 0.0 && f <= 1.0 && g >= 0.0 && g <= 1.0 && f <= g);
+    kani::assume(f >= 0.0 && f <= 1.0);
     let a = m.verif_count(f);
-    let b = m.verif_count(g);
-    kani::assert(a <= spf && b <= spf, "C19: a frame position never maps beyond samples_per_frame");
-    kani::assert(a <= b, "C19: sample index is monotone in frame position");
+    kani::assert(a <= spf, "C19: a frame position never maps beyond samples_per_frame");
     kani::assert(m.verif_count(1.0) == spf && m.verif_count(0.0) == 0, "C19: frame start -> 0, frame end -> floor(rate/50)");
-    // sample k is due exactly when the position passes k/spf (to within one sample)
-    let exact = (spf as f64) * f;
-    kani::assert((a as f64) <= exact && exact < (a as f64) + 1.0 || f >= 1.0, "C19: index = floor(spf * position)");
     kani::cover!(a > 0 && a < spf);
+}
+
+/// sample index = floor(spf * position) and monotone in the position, for the common sample rates
+/// (BOUNDED in the rate: a symbolic rate times a symbolic position did not finish in 50 minutes)
+#[kani::proof]
+#[kani::unwind(10)]
+#[kani::stub(libm::sqrt, sqrt_stub)]
+fn sample_index_floor() {
+    let rates: [usize; 8] = [8000, 11025, 22050, 32000, 44100, 48000, 96000, 192000];
+    let f: f64 = kani::any();
+    let g: f64 = kani::any();
+    kani::assume(f >= 0.0 && f < 1.0 && g >= 0.0 && g <= 1.0 && f <= g);
+    let mut m = ZXMixer::new(true, false, ZXAYMode::Mono, 44100);
+    let mut i = 0;
+    while i < 8 {
+        m.verif_set_rate(rates[i]);
+        let spf = rates[i] / 50;
+        let a = m.verif_count(f);
+        let b = m.verif_count(g);
+        kani::assert(a <= b, "C19: sample index is monotone in frame position");
+        // sample k is due exactly when the position passes k/spf (to within one sample)
+        let exact = (spf as f64) * f;
+        kani::assert((a as f64) <= exact && exact < (a as f64) + 1.0, "C19: index = floor(spf * position)");
+        i += 1;
+    }
+    kani::cover!(f > 0.5);
 }
 
 /// frame position: within [0,1], monotone in the frame clock
